@@ -12,6 +12,10 @@ package wallet
 //   (3) every account decrypts, with its current password, to the private key it was created with
 //       (through a drawn getter: by address / index / label / default);
 //   (4) generated other passwords (the previous one, near misses, the empty one) are refused.
+// Fault injection: before a drawn quarter of the saving operations the next WalletData.Save is made to fail
+// ("<wallet>~", the temporary file Save writes and renames, is a directory); every operation documents
+// "report the error and roll the in-memory change back", so the model keeps the pre-operation state
+// whenever an operation reports an error, the fault is removed, and the same oracles judge the rest.
 // The model only follows what an operation reported (nil error => applied, error => no change) plus the
 // documented ImportAccount rename rule (label -> label_1 when taken); nothing else is predicted.
 
@@ -111,6 +115,7 @@ type c38Acct struct {
 	scheme string
 	pw     []byte
 	prev   [][]byte
+	failed [][]byte // new passwords of ChangePassword calls that reported an error
 	priv   []byte
 	pub    string
 	family int
@@ -147,6 +152,7 @@ type c38World struct {
 	everAccts int
 	mutations int
 	reopens   int
+	fault     bool // the next save fails
 }
 
 func (w *c38World) logf(f string, a ...interface{}) { w.log = append(w.log, fmt.Sprintf(f, a...)) }
@@ -272,16 +278,25 @@ func (w *c38World) snapshot(c account.Client) []string {
 	return out
 }
 
-func (w *c38World) wrongPasswords(a *c38Acct) [][]byte {
+// wrongPasswords returns want non-empty passwords that are not the current one (first the password of a
+// change that reported failure, then the previous password, then near misses) and the empty one.
+func (w *c38World) wrongPasswords(a *c38Acct, want int) [][]byte {
 	var out [][]byte
-	for i := len(a.prev) - 1; i >= 0; i-- {
-		if !bytes.Equal(a.prev[i], a.pw) && len(a.prev[i]) > 0 {
+	for i := len(a.failed) - 1; i >= 0 && len(out) < want; i-- {
+		if !bytes.Equal(a.failed[i], a.pw) && len(a.failed[i]) > 0 {
+			out = append(out, a.failed[i])
+			w.ev.Class("wrongpw:of-failed-change")
+			break
+		}
+	}
+	for i := len(a.prev) - 1; i >= 0 && len(out) < want; i-- {
+		if !bytes.Equal(a.prev[i], a.pw) && len(a.prev[i]) > 0 && (len(out) == 0 || !bytes.Equal(out[0], a.prev[i])) {
 			out = append(out, a.prev[i])
 			w.ev.Class("wrongpw:previous")
 			break
 		}
 	}
-	for len(out) < 2 {
+	for len(out) < want {
 		var p []byte
 		switch uniform(w.t, 4, "wrong-kind") {
 		case 0:
@@ -311,7 +326,7 @@ func (w *c38World) wrongPasswords(a *c38Acct) [][]byte {
 	return append(out, []byte{})
 }
 
-func (w *c38World) checkKey(c account.Client, idx int, a *c38Acct) {
+func (w *c38World) checkKey(c account.Client, idx int, a *c38Acct, final bool) {
 	type getter struct {
 		name string
 		f    func(pw []byte) (*account.Account, error)
@@ -342,7 +357,11 @@ func (w *c38World) checkKey(c account.Client, idx int, a *c38Acct) {
 	if acc.Address.ToBase58() != a.addr || !strings.EqualFold(acc.SigScheme.Name(), a.scheme) {
 		w.fail("after reload, account #%d opens as address %s scheme %s, want %s %s", a.id, acc.Address.ToBase58(), acc.SigScheme.Name(), a.addr, a.scheme)
 	}
-	for _, wp := range w.wrongPasswords(a) {
+	probes := 1 // scrypt dominates the cost of a history: one probe, two at the end for accounts with a password history
+	if final && (len(a.prev) > 0 || len(a.failed) > 0) {
+		probes = 2
+	}
+	for _, wp := range w.wrongPasswords(a, probes) {
 		acc, err := c.GetAccountByAddress(a.addr, wp)
 		if err == nil || acc != nil {
 			w.fail("after reload, account #%d (%s) whose current password is %q opens with the other password %q (earlier passwords %q)",
@@ -426,7 +445,7 @@ func (w *c38World) reopen(final bool) {
 	// keys and passwords
 	for i, a := range w.accts {
 		if final || a.dirty {
-			w.checkKey(c2, i, a)
+			w.checkKey(c2, i, a, final)
 		}
 	}
 	w.cli = c2
@@ -434,6 +453,43 @@ func (w *c38World) reopen(final bool) {
 
 // ---------------------------------------------------------------------------------------------
 // operations
+
+// armFault makes, for a drawn quarter of the calls, the next WalletData.Save fail: Save writes
+// "<path>~" and renames it over the wallet file, so a directory of that name fails the write before
+// anything on disk changes. (The very first save writes the file directly and is never failed.)
+func (w *c38World) armFault() string {
+	if uniform(w.t, 4, "save-fails") != 0 {
+		return ""
+	}
+	if _, err := os.Stat(w.path); err != nil {
+		return ""
+	}
+	if err := os.Mkdir(w.path+"~", 0o755); err != nil {
+		w.t.Fatalf("harness: cannot arm the save fault: %v", err)
+	}
+	w.fault = true
+	w.ev.Class("fault:injected")
+	return "!savefails "
+}
+
+// disarm removes the fault and records what the operation did with it.
+func (w *c38World) disarm(op string, err error) {
+	if !w.fault {
+		return
+	}
+	w.fault = false
+	if e := os.Remove(w.path + "~"); e != nil {
+		w.t.Fatalf("harness: cannot remove the save fault: %v", e)
+	}
+	switch {
+	case err != nil && strings.Contains(err.Error(), filepath.Base(w.path)+"~"):
+		w.ev.Class("fault:" + op + ":save-failed")
+	case err != nil:
+		w.ev.Class("fault:" + op + ":refused-before-save")
+	default:
+		w.ev.Class("fault:" + op + ":returned-ok")
+	}
+}
 
 func (w *c38World) pick(label string) *c38Acct {
 	if len(w.accts) == 0 {
@@ -478,11 +534,13 @@ func (w *c38World) opNew() {
 	if uniform(w.t, 25, "empty-pw") == 0 {
 		pw = []byte{}
 	}
+	f := w.armFault()
 	acc, err := w.cli.NewAccount(label, sp.kt, sp.curve, scheme, pw)
+	w.disarm("NewAccount", err)
 	ok := err == nil
 	w.class("NewAccount", ok)
 	if !ok {
-		w.logf("new(%s,%q,%s:%s,pw%d)=ERR", sp.name, label, kind, scheme.Name(), len(pw))
+		w.logf("%snew(%s,%q,%s:%s,pw%d)=ERR", f, sp.name, label, kind, scheme.Name(), len(pw))
 		return
 	}
 	if acc == nil {
@@ -515,11 +573,13 @@ func (w *c38World) opImport() {
 	if want != "" && w.hasLabel(want) {
 		want += "_1" // documented in ImportAccount: "rename"
 	}
+	f := w.armFault()
 	err := w.cli.ImportAccount(&m)
+	w.disarm("ImportAccount", err)
 	ok := err == nil
 	w.class("ImportAccount", ok)
 	if !ok {
-		w.logf("import(%s,%q)=ERR", e.origin, e.meta.Label)
+		w.logf("%simport(%s,%q)=ERR", f, e.origin, e.meta.Label)
 		return
 	}
 	if want != e.meta.Label {
@@ -566,10 +626,12 @@ func (w *c38World) opDelete() {
 	if target != nil {
 		before = w.cli.GetAccountMetadataByAddress(addr)
 	}
+	f := w.armFault()
 	acc, err := w.cli.DeleteAccount(addr, pw)
+	w.disarm("DeleteAccount", err)
 	ok := err == nil && acc != nil
 	w.class("DeleteAccount", ok)
-	w.logf("delete(%s)=%v", what, ok)
+	w.logf("%sdelete(%s)=%v", f, what, ok)
 	if !ok {
 		return
 	}
@@ -597,10 +659,12 @@ func (w *c38World) opSetDefault() {
 	} else {
 		addr, what = a.addr, fmt.Sprintf("#%d", a.id)
 	}
+	f := w.armFault()
 	err := w.cli.SetDefaultAccount(addr)
+	w.disarm("SetDefaultAccount", err)
 	ok := err == nil
 	w.class("SetDefaultAccount", ok)
-	w.logf("setdefault(%s)=%v", what, ok)
+	w.logf("%ssetdefault(%s)=%v", f, what, ok)
 	if !ok {
 		return
 	}
@@ -622,10 +686,12 @@ func (w *c38World) opSetLabel() {
 	} else {
 		addr, what = a.addr, fmt.Sprintf("#%d", a.id)
 	}
+	f := w.armFault()
 	err := w.cli.SetLabel(addr, label)
+	w.disarm("SetLabel", err)
 	ok := err == nil
 	w.class("SetLabel", ok)
-	w.logf("setlabel(%s,%q)=%v", what, label, ok)
+	w.logf("%ssetlabel(%s,%q)=%v", f, what, label, ok)
 	if !ok {
 		return
 	}
@@ -659,15 +725,22 @@ func (w *c38World) opChangePw() {
 	default:
 		neu = c38DrawPw(w.t)
 	}
+	f := w.armFault()
 	err := w.cli.ChangePassword(a.addr, old, neu)
+	w.disarm("ChangePassword", err)
 	ok := err == nil
+	if !ok && !bytes.Equal(neu, a.pw) {
+		// reported as failed: the current password stays current, the refused new one must not open the account
+		a.failed = append(a.failed, neu)
+		a.dirty = true
+	}
 	if ok && bytes.Equal(old, neu) {
 		w.ev.Class("op")
 		w.ev.Class("op:ChangePassword:unchanged")
 	} else {
 		w.class("ChangePassword", ok)
 	}
-	w.logf("changepw(#%d,%s,%q->%q)=%v", a.id, kind, old, neu, ok)
+	w.logf("%schangepw(#%d,%s,%q->%q)=%v", f, a.id, kind, old, neu, ok)
 	if !ok || bytes.Equal(old, neu) {
 		return
 	}
@@ -693,10 +766,12 @@ func (w *c38World) opChangeScheme() {
 		l := c38FamilySchemes[a.family]
 		scheme = l[uniform(w.t, len(l), "family-scheme")]
 	}
+	f := w.armFault()
 	err := w.cli.ChangeSigScheme(a.addr, scheme)
+	w.disarm("ChangeSigScheme", err)
 	ok := err == nil
 	w.class("ChangeSigScheme", ok)
-	w.logf("scheme(#%d,%s:%s)=%v", a.id, kind, scheme.Name(), ok)
+	w.logf("%sscheme(#%d,%s:%s)=%v", f, a.id, kind, scheme.Name(), ok)
 	if !ok {
 		return
 	}
@@ -729,13 +804,17 @@ func (w *c38World) step() {
 
 func c38Run(t *testing.T, p c38Profile, quick, thorough int) {
 	ev := harn.For("C38").
-		Rule("histories (avg 8 operations after a first NewAccount) on a wallet file with default scrypt parameters: NewAccount (P-256/SM2/Ed25519, profile 'schemes' also P-224/384/521; natural, other valid, or invalid scheme; label from {\"\",t1,t2,main,λ-wallet,a b\"<&>}; 4% empty password), ImportAccount (metadata exported from another wallet file or from this wallet before a deletion; only addresses the wallet does not hold), DeleteAccount (65% a non-default account with its password, else wrong password / default account / unknown address), SetDefaultAccount, SetLabel, ChangePassword (25% wrong old password; 10% back to the previous one; 10% unchanged), ChangeSigScheme (1/3 invalid), reopen. Non-trivial = >=2 accounts ever listed, >=1 successful mutation after creation (import, delete, default, label, password, scheme) and a reopen after it; distinct by the operation log (account numbers, not addresses)").
+		Rule("histories (avg 8 operations after a first NewAccount) on a wallet file with default scrypt parameters: NewAccount (P-256/SM2/Ed25519, profile 'schemes' also P-224/384/521; natural, other valid, or invalid scheme; label from {\"\",t1,t2,main,λ-wallet,a b\"<&>}; 4% empty password), ImportAccount (metadata exported from another wallet file or from this wallet before a deletion; only addresses the wallet does not hold), DeleteAccount (65% a non-default account with its password, else wrong password / default account / unknown address), SetDefaultAccount, SetLabel, ChangePassword (25% wrong old password; 10% back to the previous one; 10% unchanged), ChangeSigScheme (1/3 invalid), reopen; before a quarter of the saving operations the next save is made to fail (the operation must report it and leave the wallet as it was). Non-trivial = >=2 accounts ever listed, >=1 successful mutation after creation (import, delete, default, label, password, scheme) and a reopen after it; distinct by the operation log (account numbers, not addresses)").
 		Assume("key pairs and salts come from crypto/rand inside NewAccount/EncryptPrivateKey; addresses therefore differ between runs and are never part of a draw or of the case description").
 		Assume("AES-GCM authentication makes decryption with a wrong scrypt key fail; wrong passwords are sampled (2 + the empty one per checked account), not enumerated").
 		Assume("passwords are non-empty byte strings without NUL bytes and shorter than 64 bytes (what a terminal or a command line can deliver): scrypt's PBKDF2-HMAC-SHA256 zero-pads keys to the 64-byte block and hashes longer ones, so p and p||0x00 (and a >64-byte p and sha256(p)) are the same key by construction of HMAC, not by a choice of the wallet")
 	ev.Floor("op:ChangePassword:ok", "op", 0.04)
 	ev.Floor("op:DeleteAccount:ok", "op", 0.02)
 	ev.Floor("op:reopen", "op", 0.08)
+	ev.Floor("fault:injected", "op", 0.08)
+	for _, op := range []string{"NewAccount", "ImportAccount", "DeleteAccount", "SetDefaultAccount", "SetLabel", "ChangePassword", "ChangeSigScheme"} {
+		ev.Floor("fault:"+op+":save-failed", "fault:injected", 0.015)
+	}
 
 	harn.CheckSteps(t, 8, quick, thorough, func(t *rapid.T) {
 		dir, err := os.MkdirTemp("", "c38-")
